@@ -8,7 +8,7 @@ from penman.tree import Tree
 from pv.gen import models, trees
 from pv.gen.base import pick
 from pv.harness import Enum, Hyp
-from pv.props.common import OPTS, fmt, short, strip_empty_concepts, tree_classes, tree_stats
+from pv.props.common import OPTS, churn_models, fmt, noise_calls, short, strip_empty_concepts, tree_classes, tree_stats
 from pv.ref import interp
 from pv.ref.role import build_model
 
@@ -35,7 +35,11 @@ def check(case):
     if interp.wellformed(node, spec) is not None:
         return []
     meta = case.get('meta') or {}
-    m = build_model(spec)
+    fresh = bool(len(case['tree'][1]) % 2)
+    if fresh:
+        churn_models(node)
+    m = build_model(spec, fresh=fresh)
+    noise_calls(m, node)
     f = []
     t = Tree(node, metadata=dict(meta))
     g = layout.interpret(t, m)
